@@ -184,10 +184,10 @@ func (g *zzGen) compound(d int) *zzStmt {
 			sv.Assume(x <= 3)
 			return zInt(x)
 		})
-		kw := "while"
+		// `for` is the same loop under another keyword
+		spellFor := d < 2 && sv.Choice("for", 2) == 1
 		body := append(g.body(d+1), &zzStmt{kind: sAssign, name: w, e: xBin("+", wv, xLit(1))})
-		_ = kw
-		return &zzStmt{kind: sWhile, e: xBin("<", wv, xLit(2)), body: body}
+		return &zzStmt{kind: sWhile, e: xBin("<", wv, xLit(2)), body: body, spellFor: spellFor}
 	case 4: // foreach value
 		body := append([]*zzStmt{{kind: sTrace, e: xVar("v")}}, g.body(d+1)...)
 		return &zzStmt{kind: sForeach, name: "v", e: g.iterable(), body: body}
